@@ -2,6 +2,7 @@
 use crate::indep;
 use crate::util::*;
 use versatiles_container::verif_pmtiles_types::{tile_id_to_coord, EntriesV3, EntryV3, TileId};
+use versatiles_container::verif_versatiles_types::{BlockDefinition, TileIndex};
 use versatiles_core::types::*;
 
 fn outcome<T>(r: Result<anyhow::Result<T>, String>, f: impl Fn(T) -> String) -> String {
@@ -10,6 +11,18 @@ fn outcome<T>(r: Result<anyhow::Result<T>, String>, f: impl Fn(T) -> String) -> 
 fn fmt_entry(e: &EntryV3) -> String { format!("{},{},{},{}", e.tile_id, e.range.offset, e.range.length, e.run_length) }
 pub fn fmt_entries(es: &[indep::Entry]) -> String { if es.is_empty() { "-".into() } else { es.iter().map(|e| format!("{},{},{},{}", e.id, e.off, e.len, e.run)).collect::<Vec<_>>().join(";") } }
 fn to_v3(es: &[indep::Entry]) -> EntriesV3 { let mut v = EntriesV3::new(); for e in es { v.push(EntryV3::new(e.id, ByteRange::new(e.off, e.len), e.run as u32)); } v }
+
+/// the entry generator of the `pmdir.asdir` lines (ocaml/model_run.ml builds the same list)
+pub fn seq_entries(n: u64, a: u64, st: u64, m: u64, o0: u64, g: u64) -> Vec<indep::Entry> {
+	let mut es = vec![]; let (mut off, mut prevlen) = (o0, 0u64);
+	for i in 0..n {
+		if i > 0 { off += prevlen + if i % 5 == 0 { g } else { 0 }; }
+		let len = 1 + (i * 13) % m;
+		es.push(indep::Entry { id: a + i * st, off, len, run: 1 + (i * 7) % 3 });
+		prevlen = len;
+	}
+	es
+}
 
 pub fn gen_dir(rng: &mut Rng, n: usize, leafy: bool) -> Vec<indep::Entry> {
 	let mut es = vec![]; let mut id = rng.below(5); let mut off = rng.below(100);
@@ -71,6 +84,38 @@ pub fn lines(col: &mut Collector, rng: &mut Rng, coords: &[(u8, u32, u32)], thor
 			col.out.line(&format!("pmdir.find {} {t} => {}", fmt_entries(&es), outcome(r, |o| o.map_or("none".into(), |e| fmt_entry(&e)))));
 		}
 	}
+	// the writer's directory construction (as_directory / build_roots_leaves) against the Coq writer model.
+	// Entries come from a generator both sides implement; the leaf size the code settled on is read off its
+	// first leaf (the model's theorems hold for every size > 0, the line pins everything else: which entries
+	// go to which leaf, the pointers' ids / offsets / lengths, the bytes of the root and of the leaves section)
+	for i in 0..(if thorough { 36 } else { 12 }) {
+		let n = match i % 4 { 0 => rng.range(1, 60), 1 => rng.range(4097, 9000), 2 => rng.range(12289, 16383), _ => rng.range(16384, 21000) };
+		let (a, st, m, o0, g) = (rng.below(50), 4 + rng.below(5), 1 + rng.below(400), rng.below(1000), rng.below(5000));
+		let target = match i % 3 { 0 => 1u64 << 30, 1 => rng.range(16, 36), _ => rng.range(30, 80) };
+		let es = seq_entries(n, a, st, m, o0, g);
+		let mut v3 = to_v3(&es); if i % 2 == 1 { let mut r = es.clone(); r.reverse(); v3 = to_v3(&r); }
+		let r = guarded(|| v3.as_directory(target, &TileCompression::Uncompressed));
+		let k = std::cell::Cell::new(n);
+		let res = outcome(r, |d| {
+			let hash = |b: &[u8]| { let mut h = 7u64; for x in b { h = (h * 31 + *x as u64) % 1000000007; } format!("{}:{h}", b.len()) };
+			let (mut ptrs, mut cuts) = ("-".to_string(), "-".to_string());
+			if !d.leaves_bytes.is_empty() {
+				match indep::dec_dir(d.root_bytes.as_slice()) {
+					Ok(root) => {
+						ptrs = fmt_entries(&root);
+						let lb = d.leaves_bytes.as_slice();
+						let counts: Vec<usize> = root.iter().map(|p| { let (o, l) = (p.off as usize, p.len as usize); if o + l <= lb.len() { indep::dec_dir(&lb[o..o + l]).map(|v| v.len()).unwrap_or(usize::MAX) } else { usize::MAX } }).collect();
+						if counts.len() > 1 { k.set(counts[0] as u64); }
+						cuts = counts.iter().map(|c| c.to_string()).collect::<Vec<_>>().join(",");
+					}
+					Err(_) => { ptrs = "unparsable".into(); }
+				}
+			}
+			format!("root={} leaves={} ptrs={ptrs} cuts={cuts}", hash(d.root_bytes.as_slice()), hash(d.leaves_bytes.as_slice()))
+		});
+		col.out.line(&format!("pmdir.asdir {target} {} {n} {a} {st} {m} {o0} {g} => {res}", k.get()));
+	}
+	vtbytes_lines(col, rng, if thorough { 2000 } else { 250 }, false);
 	// an unsorted directory: the lookup subtracts ids in u64
 	let bad = vec![indep::Entry { id: 9, off: 0, len: 5, run: 2 }, indep::Entry { id: 3, off: 5, len: 5, run: 1 }];
 	col.out.line(&format!("pmdir.find {} 4 => {}", fmt_entries(&bad), outcome(guarded(|| Ok(to_v3(&bad).find_tile(4))), |o| o.map_or("none".into(), |e| fmt_entry(&e)))));
@@ -78,6 +123,7 @@ pub fn lines(col: &mut Collector, rng: &mut Rng, coords: &[(u8, u32, u32)], thor
 
 /// C19: directory parser and search on mutated, hand-made and unsorted directories
 pub fn malformed_lines(col: &mut Collector, rng: &mut Rng, n: usize) {
+	vtbytes_lines(col, rng, n, true);
 	for i in 0..n {
 		let k = rng.below(7) as usize; let es = gen_dir(rng, k, i % 2 == 0);
 		let mut b = indep::enc_dir(&es, rng);
@@ -88,5 +134,60 @@ pub fn malformed_lines(col: &mut Collector, rng: &mut Rng, n: usize) {
 		let mut es2 = es.clone(); if es2.len() >= 2 { let (a, b) = (rng.below(es2.len() as u64) as usize, rng.below(es2.len() as u64) as usize); es2.swap(a, b); }
 		for e in es2.iter_mut() { if rng.chance(1, 4) { e.id = rng.below(40); } }
 		for t in [0u64, 3, 7, 20, 39, u64::MAX] { find_line(col, &es2, t); }
+	}
+}
+
+// ---------------------------------------------------------------- versatiles v02 at byte level (Model/VTBytes.v)
+fn bdef_line(col: &mut Collector, b: &[u8]) {
+	let r = guarded(|| BlockDefinition::from_blob(&Blob::from(b.to_vec())));
+	let txt = outcome(r, |d| { let g = d.get_global_bbox(); let c = d.get_coord3(); let (t, i) = (d.get_tiles_range(), d.get_index_range());
+		let re = match guarded(|| d.as_blob()) { Ok(Ok(x)) => hex(x.as_slice()), Ok(Err(_)) => "err".into(), Err(m) => if is_overflow(&m) { "overflow".into() } else { "panic".into() } };
+		format!("ok {} {} {} {} {} {} {} {} {} {} {} {re}", c.z, c.x, c.y, g.x_min, g.y_min, g.x_max, g.y_max, t.offset, t.length, i.offset, i.length) });
+	col.out.line(&format!("vt.bdef {} => {txt}", if b.is_empty() { "-".into() } else { hex(b) }));
+}
+fn tidx_line(col: &mut Collector, b: &[u8], add: u64) {
+	let r = guarded(|| TileIndex::from_blob(Blob::from(b.to_vec())));
+	let fmt = |t: &TileIndex| { let s = t.iter().map(|r| format!("{}:{}", r.offset, r.length)).collect::<Vec<_>>().join(","); if s.is_empty() { "-".to_string() } else { s } };
+	let txt = match r { Ok(Ok(mut t)) => { let a = fmt(&t);
+			let shifted = match guarded(|| { t.add_offset(add); anyhow::Ok(fmt(&t)) }) { Ok(Ok(s)) => s, Ok(Err(_)) => "err".into(), Err(m) => if is_overflow(&m) { "overflow".into() } else { "panic".into() } };
+			format!("ok {a} {shifted}") }
+		Ok(Err(_)) => "err".into(), Err(m) => if is_overflow(&m) { "overflow".into() } else { "panic".into() } };
+	col.out.line(&format!("vt.tidx {add} {} => {txt}", if b.is_empty() { "-".into() } else { hex(b) }));
+}
+fn gen_bdef_bytes(rng: &mut Rng) -> Vec<u8> {
+	// a valid definition: a cell of the 256-grid of some level, arbitrary byte ranges; then sometimes one field pushed over a border
+	let z = *rng.pick(&[0u8, 1, 3, 7, 8, 9, 12, 20, 30, 31]); let n = 1u64 << z;
+	let (bx, by) = (rng.below(((n + 255) / 256).max(1)) as u32, rng.below(((n + 255) / 256).max(1)) as u32);
+	let lim = (n.min(256) - 1) as u8;
+	let (a, b2, c, d) = (rng.below(lim as u64 + 1) as u8, rng.below(lim as u64 + 1) as u8, rng.below(lim as u64 + 1) as u8, rng.below(lim as u64 + 1) as u8);
+	let (mut cx0, mut cx1, mut cy0, mut cy1) = (a.min(c), a.max(c), b2.min(d), b2.max(d));
+	let mut zz = z; let (mut x, mut y) = (bx, by);
+	let mut off = *rng.pick(&[0u64, 66, 1 << 20, 1 << 40, u64::MAX - 1000]) + rng.below(500); let mut tlen = *rng.pick(&[0u64, 1, 999, 1 << 33]) + rng.below(300); let ilen = *rng.pick(&[0u32, 12, 3060, u32::MAX]);
+	match rng.below(14) { 0 => zz = *rng.pick(&[32u8, 40, 255]), 1 => x = *rng.pick(&[1u32 << 24, (1 << 24) - 1, u32::MAX, (n / 256) as u32 + 1]), 2 => y = *rng.pick(&[1u32 << 24, u32::MAX]), 3 => { cx0 = cx1.wrapping_add(1); } 4 => { cy1 = 255; cx1 = 255; } 5 => { off = u64::MAX - 5; tlen = 10; } 6 => { std::mem::swap(&mut cy0, &mut cy1); } _ => {} }
+	let mut o = vec![zz]; o.extend_from_slice(&x.to_be_bytes()); o.extend_from_slice(&y.to_be_bytes()); o.extend_from_slice(&[cx0, cy0, cx1, cy1]);
+	o.extend_from_slice(&off.to_be_bytes()); o.extend_from_slice(&tlen.to_be_bytes()); o.extend_from_slice(&ilen.to_be_bytes());
+	o
+}
+pub fn vtbytes_lines(col: &mut Collector, rng: &mut Rng, n: usize, malformed: bool) {
+	for _ in 0..n {
+		let mut b = gen_bdef_bytes(rng);
+		if malformed { match rng.below(5) { 0 => { let k = rng.below(b.len() as u64 + 1) as usize; b.truncate(k); } 1 => { let k = rng.below(b.len() as u64) as usize; b[k] = rng.next() as u8; } 2 => { b.extend(rng.bytes(3)); } 3 => { b = rng.bytes(33); } _ => {} } }
+		bdef_line(col, &b);
+		// BlockDefinition::new on a cell + ranges, serialised
+		if !malformed {
+			let z = *rng.pick(&[0u8, 3, 8, 9, 14, 31]); let m = ((1u64 << z) - 1) as u32;
+			let (bx, by) = (rng.below((m as u64 >> 8) + 1) as u32, rng.below((m as u64 >> 8) + 1) as u32);
+			let hi = |b: u32| (b * 256 + 255).min(m);
+			let (x0, x1) = { let (p, q) = (rng.range((bx * 256) as u64, hi(bx) as u64) as u32, rng.range((bx * 256) as u64, hi(bx) as u64) as u32); (p.min(q), p.max(q)) };
+			let (y0, y1) = { let (p, q) = (rng.range((by * 256) as u64, hi(by) as u64) as u32, rng.range((by * 256) as u64, hi(by) as u64) as u32); (p.min(q), p.max(q)) };
+			let (toff, tlen, ilen) = (rng.below(1 << 40), rng.below(1 << 30), rng.below(1 << 20));
+			let r = guarded(|| { let mut d = BlockDefinition::new(&TileBBox::new(z, x0, y0, x1, y1)?); d.set_tiles_range(ByteRange::new(toff, tlen)); d.set_index_range(ByteRange::new(toff + tlen, ilen)); d.as_blob() });
+			col.out.line(&format!("vt.bnew {z} {x0} {y0} {x1} {y1} {toff} {tlen} {ilen} => {}", outcome(r, |b| hex(b.as_slice()))));
+		}
+		// tile index: k entries (offsets near the u64 border now and then), sometimes cut or extended
+		let k = rng.below(6) as usize; let mut t = Vec::new();
+		for _ in 0..k { let off = if rng.chance(1, 8) { u64::MAX - rng.below(2000) } else { rng.below(1 << 40) }; t.extend_from_slice(&off.to_be_bytes()); t.extend_from_slice(&(if rng.chance(1, 6) { 0u32 } else if rng.chance(1, 6) { u32::MAX } else { rng.below(100000) as u32 }).to_be_bytes()); }
+		if malformed || rng.chance(1, 5) { match rng.below(3) { 0 => { let c = rng.below(t.len() as u64 + 1) as usize; t.truncate(c); } 1 => { let k = 1 + rng.below(11) as usize; t.extend(rng.bytes(k)); } _ => {} } }
+		tidx_line(col, &t, *rng.pick(&[0u64, 66, 1 << 33, 1500, u64::MAX - 100]));
 	}
 }
